@@ -59,6 +59,7 @@ type thread struct {
 	nops    int
 	lastRun int
 	touches int
+	delayed int // step at which the thread was switched away from while it could have run (0: not delayed)
 	// rendezvous slots
 	slot   interface{}
 	slotOK bool
@@ -94,7 +95,7 @@ type Options struct {
 	MaxSteps         int  // step horizon (0 = 1e6)
 	NumCPU           int  // what the shimmed runtime.NumCPU() answers
 	TraceLog         bool // keep the observation log (determinism check / replay artefact)
-	Policy           int  // canonical order of the non-running enabled threads: 0 ascending id, 1 descending id, 2 least recently run first
+	Policy           int  // canonical order of the non-running enabled threads: 0 ascending id, 1 descending id, 2 least recently run first, 3 delayed threads last
 }
 
 // Exec is the record of one execution.
@@ -314,6 +315,10 @@ func (s *sched) pick(self *thread) *thread {
 			}
 		case 2:
 			sort.SliceStable(rest, func(i, j int) bool { return rest[i].lastRun < rest[j].lastRun })
+		case 3:
+			// delay-bounded scheduling: a thread that was preempted goes to the back of the queue and stays
+			// there until everything else is blocked (ascending id among the others, oldest delay first)
+			sort.SliceStable(rest, func(i, j int) bool { return rest[i].delayed < rest[j].delayed })
 		}
 	}
 	s.recordState()
@@ -338,13 +343,18 @@ func (s *sched) pick(self *thread) *thread {
 	}
 	if len(en) == 1 {
 		en[0].lastRun = s.x.Steps
+		en[0].delayed = 0
 		return en[0]
 	}
 	c := s.decide(len(en), runningEnabled, false)
 	if c < 0 {
 		return nil
 	}
+	if runningEnabled && c != 0 {
+		self.delayed = s.x.Steps
+	}
 	en[c].lastRun = s.x.Steps
+	en[c].delayed = 0
 	return en[c]
 }
 
